@@ -238,8 +238,9 @@ def compare_iface(truth, got, kind):
 
 
 def in_domain(iface):
-    """The truth must itself be in the common representable domain: a None default only on Optional types."""
-    return all(not (t[2] in NONE_MARKS and not (t[1] or "").startswith("Optional[")) for t in iface)
+    """The truth must itself be in the common representable domain: every parameter typed, a None default only on
+    Optional types.  (A torn write that still parses can leave e.g. an attribute without annotation behind.)"""
+    return all(t[1] and not (t[2] in NONE_MARKS and not t[1].startswith("Optional[")) for t in iface)
 
 
 def outside_dump(text, kind, name):
@@ -660,7 +661,7 @@ def check_sync(p, truth, pre, post, probe, bump, black):
             continue
         if k == truth:
             d, _ = compare_iface(truth_if, iface_of(ir), "class")
-            if d:
+            if d and in_domain(truth_if):
                 v.append({"clause": "B3", "detail": "truth's own interface changed: %s" % "; ".join(d[:3]),
                           "sig": {"what": "truth_changed", "truth": truth}})
         elif not in_domain(truth_if):
@@ -703,13 +704,13 @@ def _fd(a, b):
 
 # ------------------------------------------------------------------------------ runner interface
 def plan(tier, seed, scale=1.0):
-    per = int({"quick": 110, "thorough": 3000}[tier] * scale)
+    per = int({"quick": 110, "thorough": 1500}[tier] * scale)
     return [{"seed": seed * 1000 + w, "n": per, "tier": tier} for w in range(16)]
 
 
 def work(task):
     known = load_known(ID)
-    return explore(plans(enum_every=5 if task["tier"] == "quick" else 2), simulate, task["seed"], task["n"], known,
+    return explore(plans(enum_every=5 if task["tier"] == "quick" else 3), simulate, task["seed"], task["n"], known,
                    batch=28 if task["tier"] == "quick" else 60,
                    max_shrink_runs=300, max_shrink_s=60)
 
